@@ -19,7 +19,8 @@ struct Case
     }
 };
 
-static Verdict runFrame(const TecmpRecipe& c, Info& info)
+// `shared`: the one decoder object of the whole case (what a receiver has); every frame also goes through a decoder of its own
+static Verdict runFrame(const TecmpRecipe& c, Info& info, lib::Decoder& shared)
 {
     Bytes frame = c.build();
     TecmpExpectation x = tecmpReference(frame.data(), frame.size());
@@ -31,6 +32,11 @@ static Verdict runFrame(const TecmpRecipe& c, Info& info)
         lib::Decoder dec;
         got = decodeOwned(dec, frame);
         VF_CHECK(dec.verifPending().empty(), "a TECMP frame left pending reassembly state");
+        // the decoder object that has seen all earlier frames of the case must give the same packets
+        auto again = decodeOwned(shared, frame);
+        VF_CHECK(again.size() == got.size(), "a decoder that decoded the earlier frames of the case returns " << again.size() << " packets, a fresh decoder " << got.size());
+        for (size_t i = 0; i < got.size(); ++i)
+            VF_CHECK(got[i] && again[i] && snap(*got[i]) == snap(*again[i]), "packet " << i << " differs between a fresh decoder and the decoder that saw the earlier frames");
     }
     std::vector<std::shared_ptr<lib::Packet>> direct;
     {
@@ -86,10 +92,13 @@ static Verdict runCase(const Case& c, Info& info)
 {
     bool nontrivial = false, sameSerialOtherContent = false;
     std::map<uint32_t, uint32_t> serialSeeds;
+    lib::Decoder shared;
     for (size_t i = 0; i < c.frames.size(); ++i)
     {
         Info one;
-        Verdict v = runFrame(c.frames[i], one);
+        Verdict v = runFrame(c.frames[i], one, shared);
+        if (i > 0 && c.frames[i].device == c.frames[i - 1].device && c.frames[i].counter == c.frames[i - 1].counter)
+            info.tag("frame_with_the_device_and_counter_of_the_frame_before");
         if (!v.ok)
             return Verdict::fail("frame " + std::to_string(i) + " of " + std::to_string(c.frames.size()) + ": " + v.why);
         for (const auto& t : one.tags)
@@ -239,6 +248,13 @@ static rc::Gen<Case> genCase(int tier)
                 else
                     r.serial = *rc::gen::weightedOneOf<uint32_t>({{1, rc::gen::element<uint32_t>(0, 1, 0xFFFFFFFFu, 23140065u)}, {2, rc::gen::arbitrary<uint32_t>()}});
                 serials.push_back(r.serial);
+            }
+            // a quarter of the later frames carry the device id and counter of the frame before them (a counter that stands still,
+            // two modules with the same id): header fields are arbitrary, and no message may be lost because of the one before
+            if (i > 0 && *range<int>(0, 3) == 0)
+            {
+                r.device = c.frames.back().device;
+                r.counter = c.frames.back().counter;
             }
             c.frames.push_back(r);
         }
